@@ -5,6 +5,7 @@ import NflowsModel.Lemmas.SplineAssembly
 import NflowsModel.Lemmas.SplineExec
 import NflowsModel.Lemmas.RQBin
 import NflowsModel.Lemmas.RQWhole
+import NflowsModel.Lemmas.RQInverseWhole
 /-!
 # C09 — spline transformers are increasing bijections of their box, identity in the tails
 
@@ -195,5 +196,22 @@ example : ∃ P : SplineAssembly.Pieces 1, P.xs 0 < P.xs 1 :=
      g0 := by intro k _; simp,
      g1 := by intro k _; push_cast; ring,
      gmono := by intro k _ a _ b _ hab; simpa using hab }, by simp⟩
+
+/-- **End to end, RQ inverse**: the inverse program is a strictly increasing map of `[bottom, top]` ONTO `[left, right]`
+    that pins the corners — with `rq_program_strictMonoOn/endpoints/mapsTo` the executed pair is an increasing bijection
+    of the box. -/
+theorem rq_program_inverse_bijection (e : Float → ℝ) (c : RQCfg) (uw uh ud : List ℝ) (hv : RQWhole.RQValid e c uw uh ud) :
+    StrictMonoOn (RQInverseWhole.inv e c uw uh ud) (Set.Icc (e c.box.bottom) (e c.box.top)) ∧
+    RQInverseWhole.inv e c uw uh ud '' Set.Icc (e c.box.bottom) (e c.box.top) = Set.Icc (e c.box.left) (e c.box.right) ∧
+    RQInverseWhole.inv e c uw uh ud (e c.box.bottom) = e c.box.left ∧
+    RQInverseWhole.inv e c uw uh ud (e c.box.top) = e c.box.right :=
+  ⟨RQInverseWhole.inv_strictMonoOn hv, RQInverseWhole.inv_image hv, (RQInverseWhole.inv_endpoints hv).1, (RQInverseWhole.inv_endpoints hv).2⟩
+
+/-- knots go to knots, in both directions, for every knot index -/
+theorem rq_program_knots (e : Float → ℝ) (c : RQCfg) (uw uh ud : List ℝ) (hv : RQWhole.RQValid e c uw uh ud)
+    (j : ℕ) (hj : j ≤ uw.length) :
+    RQWhole.val e c uw uh ud (RQWhole.xs e c uw j) = RQWhole.ys e c uh j ∧
+    RQInverseWhole.inv e c uw uh ud (RQWhole.ys e c uh j) = RQWhole.xs e c uw j :=
+  ⟨RQInverseWhole.val_knot hv j hj, RQInverseWhole.inv_knot hv j hj⟩
 
 end Properties.C09
